@@ -142,7 +142,8 @@ Proof.
   destruct a; cbn [api_step]; intros H; try congruence;
     first [apply only_add | apply only_push | apply only_pop | apply only_solve
           | apply only_reset | apply only_is_sat | apply only_get_model
-          | apply (only_emit reading); reflexivity].
+          | apply (only_emit reading); reflexivity
+          | apply only_guard; intros w0; reflexivity].
 Qed.
 
 Lemma sync_ok_reading : forall cs rest, forallb reading cs = true ->
@@ -622,20 +623,18 @@ Section Legal.
     - apply (wf_live s f x); [exact Hwf | rewrite live_concat; exact Hf | exact Hx].
   Qed.
 
-  (* the symbols of the live assertions: what a value query may mention *)
-  Definition in_live (i : ideal) (x : sym) : bool :=
-    existsb (fun f => mem x (fvs f)) (ideal_live i).
-
-  Lemma get_value_ok t w s i d : Inv w s i d -> forallb (in_live i) t = true ->
-    runs (get_value t) w s w s [CGetValue t] [RValue t].
+  (* a value query mentions only symbols the wrapper has declared: the solver knows them all *)
+  Lemma get_value_ok t w s i d : Inv w s i d ->
+    let t' := filter (fun x => declared_in x (decl w)) t in
+    runs (get_value t) w s w s [CGetValue t'] [RValue t'].
   Proof.
-    intros HI Ht. pose proof HI as (He & _).
-    pose proof (emit_runs (CGetValue t) w s He) as R. cbn [spec_step] in R.
-    assert (Hall : forallb (fun x => s_declared x s) t = true).
-    { apply forallb_forall. intros x Hx. rewrite forallb_forall in Ht. specialize (Ht x Hx).
-      unfold in_live in Ht. apply existsb_exists in Ht. destruct Ht as (f & Hf & Hm).
-      apply (inv_declared w s i d f x HI Hf). apply mem_In, Hm. }
-    rewrite Hall in R. exact R.
+    intros HI t'. pose proof HI as (He & Hd & _).
+    assert (Hall : forallb (fun x => s_declared x s) t' = true).
+    { apply forallb_forall. intros x Hx. apply filter_In in Hx. destruct Hx as [_ Hx].
+      rewrite s_declared_map, Hd. exact Hx. }
+    split.
+    - unfold get_value, guard. rewrite He. reflexivity.
+    - cbn [spec_exec spec_step]. fold t'. rewrite Hall. reflexivity.
   Qed.
 
   Lemma value_queries_ok : forall l s, (forall x, In x l -> s_declared x s = true) ->
@@ -702,7 +701,6 @@ Section Legal.
   Definition call_legal (i : ideal) (d : nat) (a : api_call) : bool :=
     match a with
     | APop n => n <=? d
-    | AGetValue t => forallb (in_live i) t
     | _ => true
     end.
 
@@ -727,8 +725,9 @@ Section Legal.
     - destruct (solve_ok w s i d HI) as (w' & s' & cs & rs & R & N & I' & _ & V).
       exists w', s', cs, rs. split; [exact R|]. split; [exact N|]. split; [exact I'|].
       split; [intros _; exact V | intros g E; discriminate E].
-    - exists w, s, [CGetValue t], [RValue t].
-      split; [exact (get_value_ok t w s i d HI Hc)|]. split; [reflexivity|]. split; [exact HI|].
+    - exists w, s, [CGetValue (filter (fun x => declared_in x (decl w)) t)],
+             [RValue (filter (fun x => declared_in x (decl w)) t)].
+      split; [exact (get_value_ok t w s i d HI)|]. split; [reflexivity|]. split; [exact HI|].
       split; [discriminate | intros g E; discriminate E].
     - exists w, s, (map (fun x => CGetValue [x]) (model_queries w)),
              (map (fun x => RValue [x]) (model_queries w)).
@@ -761,6 +760,15 @@ Section Legal.
                 history_legal (ideal_step i a) (depth_after d a) r
     end.
 
+  (* history_legal is exactly the user-level discipline of the model file *)
+  Lemma history_legal_user : forall h i d, history_legal i d h = user_legal d h.
+  Proof.
+    induction h as [|a r IH]; intros i d; [reflexivity|].
+    cbn [history_legal]. rewrite IH.
+    destruct a; cbn [user_legal call_legal depth_after andb]; try rewrite andb_true_r; try reflexivity.
+    destruct r; reflexivity.
+  Qed.
+
   Fixpoint ideal_run (i : ideal) (h : list api_call) : ideal :=
     match h with [] => i | a :: r => ideal_run (ideal_step i a) r end.
   Fixpoint depth_run (d : nat) (h : list api_call) : nat :=
@@ -788,47 +796,30 @@ Section Legal.
     split; [reflexivity|]. split; [split; [intros f x []|exact I] | reflexivity].
   Qed.
 
-  (* FULL CLAUSE: on every history that respects the user-level stack discipline (push(n) /
-     pop(n) for any n, reset_assertions, one-shot checks, get_model anywhere) and whose
-     get_value queries mention only symbols of live assertions, the emitted stream is accepted
-     by the strict solver (declared before use, exactly once while in scope, push/pop mirrored
-     level by level) and the wrapper raises no internal error *)
-  Theorem stream_legal : forall h, history_legal ideal_init 0 h = true ->
+  (* FULL CLAUSE: on EVERY history that respects the user-level stack discipline (push(n) /
+     pop(n) for any n, reset_assertions, one-shot checks, get_value of any term and get_model
+     anywhere, exit last) the emitted stream is accepted by the strict solver (every sort and
+     symbol declared before use, exactly once while in scope, push/pop mirrored level by level)
+     and the wrapper raises no internal error *)
+  Theorem stream_legal : forall h, user_legal 0 h = true ->
     accepted decide (stream h) = true /\ werr (final h) = false.
   Proof.
-    intros h HL. destruct (run_ok h w_init s_init ideal_init 0 inv_init HL)
+    intros h HL. rewrite <- (history_legal_user h ideal_init 0) in HL.
+    destruct (run_ok h w_init s_init ideal_init 0 inv_init HL)
       as (w' & s' & cs & rs & R & S & N & I').
     unfold accepted, spec_run, stream, final. rewrite R. cbn [fst snd].
     rewrite spec_exec_app. cbn [preamble spec_exec spec_step]. fold s_init. rewrite S. cbn [snd].
     split; [cbn; exact N | apply I'].
   Qed.
 
-  (* history_legal is user_legal plus the condition on get_value: without get_value calls every
-     user-legal history qualifies *)
-  Definition no_value_query (a : api_call) : bool :=
-    match a with AGetValue _ => false | _ => true end.
-  Lemma user_legal_history_legal : forall h i d, user_legal d h = true ->
-    forallb no_value_query h = true -> history_legal i d h = true.
-  Proof.
-    induction h as [|a r IH]; intros i d HU HQ; [reflexivity|].
-    cbn [forallb] in HQ. apply andb_true_iff in HQ. destruct HQ as [Hq Hr].
-    cbn [history_legal].
-    destruct a; cbn [user_legal call_legal depth_after andb no_value_query] in *;
-      try discriminate; try (apply IH; assumption).
-    - apply andb_true_iff in HU. destruct HU as [H1 H2]. rewrite H1. cbn [andb]. apply IH; assumption.
-    - destruct r; [reflexivity | discriminate].
-  Qed.
-  Theorem stream_legal_user : forall h, user_legal 0 h = true -> forallb no_value_query h = true ->
-    accepted decide (stream h) = true /\ werr (final h) = false.
-  Proof. intros h HU HQ. apply stream_legal. apply user_legal_history_legal; assumption. Qed.
-
   (* the solver's assertion stack after a legal history is the one the user means; every
      symbol of a live assertion is declared in the solver *)
-  Theorem state_tracks_ideal : forall h, history_legal ideal_init 0 h = true ->
+  Theorem state_tracks_ideal : forall h, user_legal 0 h = true ->
     exists s', fst (sexec s_init (snd (run_api w_init h))) = s' /\
       Inv (final h) s' (ideal_run ideal_init h) (depth_run 0 h).
   Proof.
-    intros h HL. destruct (run_ok h w_init s_init ideal_init 0 inv_init HL)
+    intros h HL. rewrite <- (history_legal_user h ideal_init 0) in HL.
+    destruct (run_ok h w_init s_init ideal_init 0 inv_init HL)
       as (w' & s' & cs & rs & R & S & N & I').
     exists s'. unfold final. rewrite R. cbn [fst snd]. rewrite S. split; [reflexivity | exact I'].
   Qed.
@@ -836,7 +827,7 @@ Section Legal.
   (* VERDICTS: a solving call made after a legal history returns exactly what the solver's
      decision procedure says about the assertions the user means (plus the checked formula for
      the one-shot calls); is_valid / is_unsat negate it *)
-  Theorem verdict_faithful : forall h a, history_legal ideal_init 0 (h ++ [a]) = true ->
+  Theorem verdict_faithful : forall h a, user_legal 0 (h ++ [a]) = true ->
     let w := final h in
     let s := fst (sexec s_init (snd (run_api w_init h))) in
     let rs := snd (sexec s (snd (api_step w a))) in
@@ -844,7 +835,7 @@ Section Legal.
     (a = ASolve -> verdict_of rs = Some (decide live_now)) /\
     (forall f, check_formula a = Some f -> verdict_of rs = Some (decide (f :: live_now))).
   Proof.
-    intros h a HL.
+    intros h a HL. rewrite <- (history_legal_user (h ++ [a]) ideal_init 0) in HL.
     assert (Hsplit : forall h i d, history_legal i d (h ++ [a]) = true ->
               history_legal i d h = true /\
               call_legal (ideal_run i h) (depth_run d h) a = true).
@@ -866,7 +857,7 @@ Section Legal.
   (* FULL CLAUSE: after every legal history, at every depth and with or without a pending
      one-shot level, get_model asks the solver about every symbol of every live assertion (and
      the strict solver answers each query: get_model_ok) *)
-  Theorem model_complete : forall h, history_legal ideal_init 0 h = true ->
+  Theorem model_complete : forall h, user_legal 0 h = true ->
     forall f x, In f (ideal_live (ideal_run ideal_init h)) -> In x (fvs f) ->
       In x (model_queries (final h)).
   Proof.
@@ -885,7 +876,7 @@ Definition legal_example : list api_call :=
   [AAdd (FAtom 0 [(0, None); (1, None); (5, Some 0); (6, Some 0)]); APush 2; AAdd (FAtom 1 (plain [1; 2])); AIsSat (FAtom 2 (plain [3])); APush 1;
    AAdd (FNot (FAtom 3 (plain [0; 3]))); ASolve; AGetValue [0; 3]; AGetModel; APop 2;
    AIsValid (FAtom 4 (plain [2])); APop 1; ASolve; AReset; AAdd (FAtom 5 (plain [0])); ASolve; AGetModel; AExit].
-Example legal_example_ok : history_legal ideal_init 0 legal_example = true.
+Example legal_example_ok : user_legal 0 legal_example = true.
 Proof. reflexivity. Qed.
 Example legal_example_stream :
   snd (run_api w_init legal_example) =
@@ -893,29 +884,23 @@ Example legal_example_stream :
 Proof. reflexivity. Qed.
 
 (* ====================================================================== *)
-(* C. One clause is still FALSE of the faithful model: witness             *)
+(* C. Histories that refuted clauses before the fixes (a-e) are handled    *)
 (* ====================================================================== *)
 
 Definition X := FAtom 0 (plain [0]).
 Definition Y := FAtom 1 (plain [1]).
 
-(* get_value never declares: a symbol that occurs in no (simplified) assertion is sent undeclared
-   (declaring it on the spot would leave sat mode, in which get-value is not allowed) *)
-Definition value_witness : list api_call := [AAdd X; ASolve; AGetValue [1]].
-
 Definition legal_and_quiet (decide : list form -> bool) (h : list api_call) : bool :=
   accepted decide (stream h) && negb (werr (final h)).
 
-Theorem stream_legal_refuted_value : user_legal 0 value_witness = true /\
-  forall decide, accepted decide (stream value_witness) = false.
+(* get_value of a symbol that no assertion mentions: nothing undeclared is sent *)
+Definition value_witness : list api_call := [AAdd X; ASolve; AGetValue [1]; AGetValue [0; 1]].
+Example value_witness_ok :
+  snd (run_api w_init value_witness) =
+    [CDeclare 0 None; CAssert X; CCheckSat; CGetValue []; CGetValue [0]] /\
+  forall decide, legal_and_quiet decide value_witness = true.
 Proof. split; reflexivity. Qed.
 
-(* the clause "EVERY user-legal history yields a legal stream" (no condition on get_value) *)
-Theorem stream_legal_refuted :
-  exists h, user_legal 0 h = true /\ forall decide, legal_and_quiet decide h = false.
-Proof. exists value_witness. split; reflexivity. Qed.
-
-(* the histories that refuted the clauses before the fixes a-d are now handled *)
 Example former_witnesses_ok :
   forallb (fun h => legal_and_quiet (fun _ => true) h && in_sync (stream h))
     [ [AAdd X; ASolve; AGetValue [0]; ASolve];
@@ -940,7 +925,7 @@ Section Truth.
   Hypothesis decide_correct : forall fs, decide fs = true <-> exists I, sat_by I fs.
   Hypothesis holds_not : forall I f, holds I (FNot f) = negb (holds I f).
 
-  Theorem shortcut_truth : forall h a v, history_legal ideal_init 0 (h ++ [a]) = true ->
+  Theorem shortcut_truth : forall h a v, user_legal 0 (h ++ [a]) = true ->
     let w := final h in
     let s := fst (spec_exec decide s_init (snd (run_api w_init h))) in
     let rs := snd (spec_exec decide s (snd (api_step w a))) in
